@@ -278,24 +278,26 @@ def match_rows(model_rows, real_rows, exact_bounds=True):
 def stream_rows(c, N):
     K = S.problem_classes()
     rng = c.rng
-    hopts = dict(vr="0", cr="0", thr=fr(1e-8), fix=False)
     lines, insts = [], []
     for _ in range(N):
         keep = rng.random() < 0.5
         inst = S.gen_instance(rng)
         n = len(inst["times"])
-        specs = S.gen_goal_set(rng, n, keep, n_prios=rng.choice([1, 1, 2]), max_per_prio=3, allow_relax=False)
+        cr = rng.choice([0.0, 0.0, 0.25, 0.5])
+        hopts = dict(vr="0", cr=fr(cr), thr=fr(1e-8), fix=False)
+        specs = S.gen_goal_set(rng, n, keep, n_prios=rng.choice([1, 1, 2]), max_per_prio=3, allow_relax=not keep)
         if rng.random() < 0.5:  # put every goal into the first priority: more rows per instance
             p0 = min(s.prio for s in specs)
             for s in specs:
                 s.prio = p0
             S.fix_order(specs)
         p, gpoint, gpath = first_priority(specs)
-        desc = dict(keep=keep, n=n, inst=inst, goals=[s.describe() for s in specs])
+        desc = dict(keep=keep, n=n, cr=cr, inst=inst, goals=[s.describe() for s in specs])
         if p is None:
             c.hit("rows/all-goals-empty")
             continue
-        pr = K["GP"](specs=specs, gp_opts={"keep_soft_constraints": keep}, stop_at="transcribe", **inst)
+        pr = K["GP"](specs=specs, gp_opts={"keep_soft_constraints": keep, "constraint_relaxation": cr},
+                     stop_at="transcribe", **inst)
         r = S.run_quiet(pr.optimize)
         if r[0] != "stop":
             c.disagree("well-formed goal set did not reach transcribe", desc, "stop", repr(r)[:300])
@@ -511,9 +513,12 @@ def stream_solved(c, N):
         inst = S.gen_instance(rng)
         n = len(inst["times"])
         specs = S.gen_goal_set(rng, n, keep, orders=(1,) if highs else (1, 2), allow_equal=False,
-                               allow_relax=False)
+                               allow_relax=not keep)
         prios, live = priorities_of(specs)
         opts = {}
+        cr = 0.0
+        if not keep and rng.random() < 0.3:
+            cr = opts["constraint_relaxation"] = rng.choice([0.125, 0.5])
         if variant == "GP":
             opts["keep_soft_constraints"] = keep
         if not highs and rng.random() < 0.7:
@@ -558,14 +563,14 @@ def stream_solved(c, N):
             for s in live:
                 if s.crit and int(s.prio) <= p:
                     for m in range(E):
-                        check_critical(c, desc, s, res[m], "at priority %d" % p)
+                        check_critical(c, desc, s, res[m], "at priority %d" % p, slack=s.relax + cr * s.nom_at(0))
                         c.hit("critical/checked")
         if success:
             for m in range(E):
                 fin = pr.extract_results(m)
                 for s in live:
                     if s.crit:
-                        check_critical(c, desc, s, fin, "in the final result")
+                        check_critical(c, desc, s, fin, "in the final result", slack=s.relax + cr * s.nom_at(0))
 
 
 # ---------------------------------------------------------------------------------------------
@@ -661,9 +666,9 @@ def run(c):
     c.prove()
     run_corpus(c)
     stream_update_bounds(c)
-    stream_validate(c, c.n(220, 3000))
-    stream_rows(c, c.n(40, 400))
-    stream_solved(c, c.n(40, 400))
+    stream_validate(c, c.n(400, 3000))
+    stream_rows(c, c.n(80, 400))
+    stream_solved(c, c.n(80, 400))
     probe_f23(c)
     probe_f27(c)
     c.exhaustive = False
